@@ -43,7 +43,9 @@ func smudgeToFileRule(c *Ctx, rule string) {
 		c.Missing(rule, "SmudgeToFile: os.Create / Smudge", "not found")
 		return
 	}
-	isFile := func(v ssa.Value) bool { return ResultOfCall(v, created, 0) }
+	isFile := func(v ssa.Value) bool {
+		return onlyFrom(v, func(x ssa.Value) bool { cc, i, ok := CallResult(x); return ok && cc == created && i == 0 })
+	}
 	c.Check(len(smudge.Call.Args) > 1 && isFile(smudge.Call.Args[1]), rule, "SmudgeToFile:smudges-into-created-file", p.InstrPos(smudge),
 		"the object is written into the file created at the requested path", "Smudge does not write into the file SmudgeToFile created at the requested path")
 	// (a)
@@ -1566,57 +1568,69 @@ func transferRecvChecked(c *Ctx, rule string) {
 // at the first '=' — no trimming, cleaning or case change.
 func requestHeaderVerbatim(c *Ctx, rule string) {
 	p := c.P
-	fn := p.Fn("git", "(*FilterProcessScanner).readRequest")
-	if fn == nil {
-		c.Missing(rule, "(*git.FilterProcessScanner).readRequest", "not found")
-		return
+	isHeaderMap := func(m ssa.Value) bool {
+		if IsLoadOfField(m, "git.Request", "Header") {
+			return true
+		}
+		for _, r := range Referrers(m) {
+			if st, ok := r.(*ssa.Store); ok && st.Val == m {
+				if fa, ok := st.Addr.(*ssa.FieldAddr); ok {
+					if tn, f := fieldAddrName(fa); tn == "git.Request" && f == "Header" {
+						return true
+					}
+				}
+			}
+		}
+		return false
 	}
 	n := 0
-	for _, b := range fn.Blocks {
-		for _, in := range b.Instrs {
-			mu, ok := in.(*ssa.MapUpdate)
-			if !ok || short(mu.Map.Type().String()) != "map[string]string" {
-				continue
-			}
-			n++
-			verbatim := func(v ssa.Value) (bool, string) {
-				switch x := v.(type) {
-				case *ssa.Call:
-					return false, CalleeName(x.Common())
-				case *ssa.Extract:
-					if cc, ok := x.Tuple.(*ssa.Call); ok && CalleeName(cc.Common()) == "strings.Cut" {
-						return true, ""
-					}
-					return false, "a call result"
-				case *ssa.UnOp:
-					if ia, ok := x.X.(*ssa.IndexAddr); ok {
-						if cc, _, ok := CallResult(ia.X); ok && nameIn(CalleeName(cc.Common()), []string{"strings.SplitN", "strings.Split"}) {
-							if CalleeName(cc.Common()) == "strings.SplitN" {
-								if k, ok := ConstInt(cc.Call.Args[2]); !ok || k != 2 {
-									return false, "a split that is not bounded to two parts"
-								}
-							} else {
-								return false, "an unbounded split (values containing '=' are cut)"
-							}
+	for _, fn := range p.RepoFuncs(func(path string) bool { return strings.HasSuffix(path, "/git") }) {
+		for _, b := range fn.Blocks {
+			for _, in := range b.Instrs {
+				mu, ok := in.(*ssa.MapUpdate)
+				if !ok || short(mu.Map.Type().String()) != "map[string]string" || !isHeaderMap(mu.Map) {
+					continue
+				}
+				n++
+				verbatim := func(v ssa.Value) (bool, string) {
+					switch x := v.(type) {
+					case *ssa.Call:
+						return false, CalleeName(x.Common())
+					case *ssa.Extract:
+						if cc, ok := x.Tuple.(*ssa.Call); ok && CalleeName(cc.Common()) == "strings.Cut" {
 							return true, ""
 						}
+						return false, "a call result"
+					case *ssa.UnOp:
+						if ia, ok := x.X.(*ssa.IndexAddr); ok {
+							if cc, _, ok := CallResult(ia.X); ok && nameIn(CalleeName(cc.Common()), []string{"strings.SplitN", "strings.Split"}) {
+								if CalleeName(cc.Common()) == "strings.SplitN" {
+									if k, ok := ConstInt(cc.Call.Args[2]); !ok || k != 2 {
+										return false, "a split that is not bounded to two parts"
+									}
+								} else {
+									return false, "an unbounded split (values containing '=' are cut)"
+								}
+								return true, ""
+							}
+						}
+					case *ssa.BinOp:
+						return false, "a computed string"
 					}
-				case *ssa.BinOp:
-					return false, "a computed string"
+					return true, ""
 				}
-				return true, ""
+				okK, whyK := verbatim(mu.Key)
+				okV, whyV := verbatim(mu.Value)
+				why := whyK
+				if okK {
+					why = whyV
+				}
+				c.Check(okK && okV, rule, "request-header:stored-verbatim", p.InstrPos(mu), "header key and value are the two parts of the line split at the first '='",
+					"a filter request header is stored after passing through "+why+": a pathname with leading or trailing white space is altered, so the path announced for a delayed blob is one Git never asked for")
 			}
-			okK, whyK := verbatim(mu.Key)
-			okV, whyV := verbatim(mu.Value)
-			why := whyK
-			if okK {
-				why = whyV
-			}
-			c.Check(okK && okV, rule, "request-header:stored-verbatim", p.InstrPos(mu), "header key and value are the two parts of the line split at the first '='",
-				"a filter request header is stored after passing through "+why+": a pathname with leading or trailing white space is altered, so the path announced for a delayed blob is one Git never asked for")
 		}
 	}
-	c.AtLeast(rule, "header stores in readRequest", n, 1)
+	c.AtLeast(rule, "stores into a filter request's header map", n, 1)
 }
 
 // concatPicksEarliest (C15): when no object is ready the batch collector sleeps for the wait Concat reports; that
@@ -1979,15 +1993,64 @@ func blocklistLooksAtBaseName(c *Ctx, rule string) {
 		return
 	}
 	n := 0
-	for _, ci := range CallsIn(fn, "strings.HasPrefix", "strings.EqualFold", "strings.Contains", "strings.HasSuffix") {
+	isBase := func(v ssa.Value) bool {
+		bc, _, ok := CallResult(v)
+		return ok && CalleeName(bc.Common()) == "path/filepath.Base" && SameVar(bc.Call.Args[0], fn.Params[0])
+	}
+	for _, ci := range AllCalls(WithAnon(fn), "strings.HasPrefix", "strings.EqualFold", "strings.Contains", "strings.HasSuffix") {
 		a := CallArgs(ci.Common())
 		n++
-		good := false
-		if bc, _, ok := CallResult(a[0]); ok && CalleeName(bc.Common()) == "path/filepath.Base" && SameVar(bc.Call.Args[0], fn.Params[0]) {
-			good = true
+		leaves := p.LeavesNoFields(a[0], func(v ssa.Value) FlowAct {
+			if isBase(v) {
+				return Stop
+			}
+			return Descend
+		})
+		good := len(leaves) > 0
+		for _, l := range leaves {
+			if !isBase(l) {
+				good = false
+			}
 		}
 		c.Check(good, rule, "blocklist:tested-on-base-name", p.InstrPos(ci), "the forbidden-name test runs on filepath.Base(name)",
 			"the forbidden-name test of `track` does not run on the base name of the path: files below ordinary directories whose name starts like a forbidden file (.github/, .gitlab/) make track refuse the whole pattern")
 	}
 	c.AtLeast(rule, "name tests in blocklistItem", n, 1)
+}
+
+// onlyFrom: following local cells and φ-nodes back from v, every definition that is not a nil constant satisfies
+// pred, and there is at least one (a value threaded through result variables of an expanded helper).
+func onlyFrom(v ssa.Value, pred func(ssa.Value) bool) bool {
+	seen := map[ssa.Value]bool{}
+	n, bad := 0, false
+	var walk func(v ssa.Value, d int)
+	walk = func(v ssa.Value, d int) {
+		v = Unwrap(v)
+		if seen[v] || d > 8 {
+			return
+		}
+		seen[v] = true
+		if IsNilConst(v) {
+			return
+		}
+		if pred(v) {
+			n++
+			return
+		}
+		if ph, ok := v.(*ssa.Phi); ok {
+			for _, e := range ph.Edges {
+				walk(e, d+1)
+			}
+			return
+		}
+		if defs := ReachingDefs(v); len(defs) > 0 {
+			for _, x := range defs {
+				walk(x, d+1)
+			}
+			return
+		}
+		bad = true
+	}
+	walk(v, 0)
+	return n > 0 && !bad
 }
